@@ -19,6 +19,7 @@ admit. Value-origin rules pin the lookup key to the authenticated id of the acce
 the limit (explicit and background dials are never limited); the whole decision runs under the
 connect timeout.
 The count compared with the limit is current: at handler exit the peer leaves the map before the request tasks are shut down (C09.3 re-evaluated).
+The affinity looked up is the one last configured: KnownPeers::insert replaces the whole entry, remove deletes it, nothing else writes the map or edits a PeerInfo in place.
 """
 TRUSTED = ["KnownPeers is a HashMap<PeerId, PeerInfo> behind a RwLock", "quinn closes a connection whose last handle is dropped"]
 NOT_DECIDED = ["truly simultaneous arrivals (excluded by the property)", "slot accounting over histories beyond `len()` reading the live map",
@@ -162,7 +163,10 @@ def run(cx):
         # KnownPeers::get = map.get(peer_id).cloned()
         kb = cx.body(f"{CM}::KnownPeers::get")
         t = Origins(kb).of_local(0)
-        hg = [x for x in walk(t) if x[0] == "call" and name_matches(x[1], "HashMap::get")]
+        hg = []
+        for x in walk(t):          # the same lookup may occur in several alternatives of the result (`?` / match forms)
+            if x[0] == "call" and name_matches(x[1], "HashMap::get") and x not in hg:
+                hg.append(x)
         ob.require(len(hg) == 1 and is_param(hg[0][2][1], "peer_id"), "KnownPeers::get", f"KnownPeers::get returns {show(t)}", kb.path)
         # Config::max_concurrent_connections returns the field
         mb = cx.body("anemo::config::Config::max_concurrent_connections")
@@ -203,3 +207,33 @@ def run(cx):
 
     with cx.ob("C10.6", "R-WRITERS", "one layer out: the configured connection limit is never rewritten after the Config was built") as ob:
         check_config_immutable(ob, prog, ["max_concurrent_connections"])
+
+    with cx.ob("C10.7", "R-WRITERS", "one layer out: the affinity admission looks up is the one last configured - KnownPeers::insert replaces the whole entry with the given PeerInfo, remove deletes it, and nothing else writes the map") as ob:
+        KP = f"{CM}::KnownPeers"
+        check_callers(ob, prog, f"{KP}::inner_mut", [f"{KP}::insert", f"{KP}::remove", f"{KP}::remove_all"], crates=["anemo"], floor=3, what="KnownPeers::inner_mut (write guard)")
+        wr = [c for c in prog.callers_of("RwLock::write", crates=["anemo"]) if "PeerInfo" in str(c.ga) + str(c.self_ty or "")]
+        for c in wr:
+            ob.require(owner_path(prog, c.body) == f"{KP}::inner_mut", f"write-guard/{owner_path(prog, c.body)}", f"the known-peers lock is write-locked in {c.body.path}", c.body.path, c.body.loc(c.bb))
+        ob.floor(wr, 1, "write-lock sites of the known-peers map")
+        ib = cx.body(f"{KP}::insert")
+        io = Origins(ib)
+        hm = [c for c in ib.calls() if not ib.is_cleanup(c.bb) and c.fn and "HashMap" in c.fn]
+        ins = [c for c in hm if c.is_("HashMap::insert")]
+        ob.require(len(hm) == 1 and len(ins) == 1, "insert/only-map-op", f"KnownPeers::insert map operations: {[c.fn for c in hm]}", ib.path)
+        if len(ins) == 1:
+            k = strip_identity(arg_origin(ins[0], 1, io))
+            v = strip_identity(arg_origin(ins[0], 2, io))
+            ob.require(k[0] == "field" and k[2] == "peer_id" and is_param(strip_identity(k[1]), "peer_info") and is_param(v, "peer_info"), "insert/replaces-entry",
+                       f"KnownPeers::insert stores {show(v)[:80]} under {show(k)[:80]}", ib.path)
+            ob.require(all(ib.dominates(ins[0].bb, r) for r in ib.return_blocks()), "insert/always", "a return of KnownPeers::insert skips the map insert", ib.path)
+        rb = cx.body(f"{KP}::remove")
+        ro = Origins(rb)
+        hm = [c for c in rb.calls() if not rb.is_cleanup(c.bb) and c.fn and "HashMap" in c.fn]
+        ok = len(hm) == 1 and hm[0].is_("HashMap::remove") and is_param(strip_identity(arg_origin(hm[0], 1, ro)), "peer_id") and all(rb.dominates(hm[0].bb, r) for r in rb.return_blocks())
+        ob.require(ok, "remove/deletes-entry", f"KnownPeers::remove map operations: {[c.fn for c in hm]}", rb.path)
+        # PeerInfo values are never edited in place
+        for fld in ("affinity", "peer_id"):
+            acc = [a for a in field_accesses(prog, "anemo::types::PeerInfo", fld, crates=["anemo"]) if a[2] in ("mutref", "write") and not a[0].is_cleanup(a[1])]
+            for bb_, i, kind, _ in acc:
+                own = owner_path(prog, bb_)
+                ob.require("serde" in bb_.path or "_::" in bb_.path or own.startswith("<anemo::types::PeerInfo as"), f"PeerInfo.{fld}-writer/{own}", f"PeerInfo.{fld} is {kind}-accessed in {bb_.path}", bb_.path, bb_.loc(i))
